@@ -35,7 +35,6 @@ CONSTANTS N,            \* peers 1..N
           Slots,        \* duty slots the gater lets through
           ExT,          \* exchange timeout (ticks)
           SlotLen, DLOff, \* deadline of slot s = s*SlotLen + DLOff
-          LocalProtocols, LocalProposals,    \* infosync defaults per node: what Protocols()/Proposals() answer without results
           V2Versions,   \* version strings >= minSyncContributionV2Version (v1.11)
           DupPolicy     \* "first": as coded (addMsg keeps the first message of a peer); "last": CONTROL
 
@@ -59,7 +58,7 @@ VARIABLES now,
           why,      \* history: "all" | "timeout": what started consensus
           ret,      \* what Prioritise returned: None (still running) | "nil" | error text
           dec,      \* [Slots -> decided result or NoProp]
-          outp,     \* history/output: [i, slot, topics] subscriber calls
+          outp,     \* history/output: sequence of [i, slot, topics] subscriber calls
           isr,      \* infosync results per real node: Seq([slot, versions, protocols, proposals])
           isc,      \* infosync sync-contribution gate results: Seq([slot, enabled])
           first     \* history: first message accepted from peer j by instance (i,s), for FirstWins
@@ -73,7 +72,7 @@ Init == /\ now = 0
         /\ seen = [x \in IS |-> {}] /\ buf = [x \in IS |-> <<>>] /\ trig = [x \in IS |-> 0]
         /\ fired = [x \in IS |-> FALSE] /\ sends = {} /\ sdone = {} /\ handled = {}
         /\ prop = [x \in IS |-> NoProp] /\ why = [x \in IS |-> None] /\ ret = [x \in IS |-> None]
-        /\ dec = [s \in Slots |-> NoProp] /\ outp = {} /\ isr = [i \in Real |-> <<>>] /\ isc = [i \in Real |-> <<>>]
+        /\ dec = [s \in Slots |-> NoProp] /\ outp = <<>> /\ isr = [i \in Real |-> <<>>] /\ isc = [i \in Real |-> <<>>]
         /\ first = [x \in IS |-> [j \in Peers |-> NoMsg]]
 
 Running(x) == st[x] \in {"run", "cons"}
@@ -202,7 +201,7 @@ Decide(i, s, by) ==
   /\ dec[s] \in {NoProp, prop[<<by, s>>]}
   /\ dec' = [dec EXCEPT ![s] = prop[<<by, s>>]]
   /\ LET v == dec'[s] r == ISRes(s, v) IN
-       /\ outp' = outp \cup {[i |-> i, slot |-> s, topics |-> v.topics]}
+       /\ outp' = Append(outp, [i |-> i, slot |-> s, topics |-> v.topics])
        /\ isr' = [isr EXCEPT ![i] = AddIS(@, r)]
        /\ isc' = [isc EXCEPT ![i] = AddSC(@, s, \E k \in DOMAIN r.versions : r.versions[k] \in V2Versions)]
   /\ UNCHANGED <<now, evars>>
@@ -210,7 +209,8 @@ Decide(i, s, by) ==
 \* number of leading stored results whose slot is <= the queried one (the loops break at the first greater slot)
 Prefix(q, slot) == LET above == {k \in DOMAIN q : q[k].slot > slot} IN
                    IF above = {} THEN Len(q) ELSE (CHOOSE k \in above : \A u \in above : k <= u) - 1
-QProtocols(i, slot) == LET n == Prefix(isr[i], slot) IN IF n = 0 THEN LocalProtocols[i] ELSE isr[i][n].protocols
+\* (dflt: the node's local protocols)
+QProtocols(i, slot, dflt) == LET n == Prefix(isr[i], slot) IN IF n = 0 THEN dflt ELSE isr[i][n].protocols
 QProposals(i, slot) == LET n == Prefix(isr[i], slot) IN IF n = 0 THEN <<"full">> ELSE isr[i][n].proposals
 QSync(i, slot) == LET n == Prefix(isc[i], slot) IN IF n = 0 THEN FALSE ELSE isc[i][n].enabled
 
@@ -235,8 +235,8 @@ ProposalCalcOK == \A x \in IS : prop[x] # NoProp =>
 SameInputsSameResult == \A x, y \in IS : (prop[x] # NoProp /\ prop[y] # NoProp /\ Range(prop[x].msgs) = Range(prop[y].msgs))
                                             => prop[x].topics = prop[y].topics
 \* nodes that decide, decide the same, proposed, result
-DecidedOK == /\ \A a, b \in outp : a.slot = b.slot => a.topics = b.topics
-             /\ \A a \in outp : \E x \in IS : x[2] = a.slot /\ prop[x] # NoProp /\ prop[x].topics = a.topics
+DecidedOK == /\ \A a, b \in Range(outp) : a.slot = b.slot => a.topics = b.topics
+             /\ \A a \in Range(outp) : \E x \in IS : x[2] = a.slot /\ prop[x] # NoProp /\ prop[x].topics = a.topics
 \* the handler answers a request only with the own message of that duty's instance
 AnswersOwn == \A h \in handled : h.res.k = "resp" => \E s \in Slots : h.res.m = own[<<h.to, s>>] /\ h.res.m # NoMsg
 \* stored infosync results have versions
